@@ -80,8 +80,13 @@ static T1Copier g_cop;
 enum IK { I_OBJ, I_IN, I_OUT, I_OUTT };           // object, input parameter, byte output parameter, typed (copier) output parameter
 struct Item {
     int kind; std::string name; int type; int vi; int obj;
+    size_t olen = 0; bool unmod = false;          // expectation side of a byte output parameter: bytes returned (0 = zero-sized) / withUnmodifiedOutputParameter
     Item(int k = I_IN, const std::string& n = "", int t = 0, int v = 0, int o = -1) : kind(k), name(n), type(t), vi(v), obj(o) {}
 };
+// output parameter slots: a function signature has 0..3 output parameters; "out2" is the name an injected deviation uses (never declared)
+static const int NOUT = 3, NSLOT = 4;
+static const char* const OUT_NAME[NOUT] = { "out", "ob", "oc" };
+static int out_slot(const std::string& n) { for (int k = 0; k < NOUT; k++) if (n == OUT_NAME[k]) return k; return NOUT; }
 enum RT { R_NONE, R_INT, R_UINT, R_LONG, R_ULONG, R_LL, R_ULL, R_DOUBLE, R_STR, R_PTR, R_CPTR, R_N };
 static const char* RT_NAME[R_N] = { "none", "int", "uint", "long", "ulong", "llong", "ullong", "double", "str", "ptr", "cptr" };
 enum API { A_ONE, A_N, A_NOCALL };
@@ -90,7 +95,7 @@ static const char* FETCH_NAME[F_N] = { "none", "call.returnXValue", "call.return
 
 struct ExpD {
     int idx; std::string scope, name; std::vector<Item> items; bool ignoreOther; unsigned count; int api;
-    int retType; bool unmodOut; size_t outLen;
+    int retType;
     std::string fq() const { return scope.empty() ? name : scope + "::" + name; }
 };
 struct CallD {
@@ -99,7 +104,12 @@ struct CallD {
 };
 enum MODE { M_FIXTURE, M_PLUGIN, M_RECORD, M_N };
 static const char* MODE_NAME[M_N] = { "fixture+default-reporter", "fixture+MockSupportPlugin", "fixture+recording-reporter" };
+// earlier tests of the same run (same TestResult, same registry / plugin) that precede the judged scenario: the verdict of a test must not depend on them
+enum PRE { P_PASS_EMPTY, P_PASS_MOCK, P_FAIL_PLAIN, P_FAIL_MOCK_CALL, P_FAIL_MOCK_END, P_N };
+static const char* PRE_NAME[P_N] = { "passing-test-without-mocks", "passing-mock-test", "test-failing-without-mocks", "test-failing-at-an-unexpected-mock-call", "test-failing-with-an-unfulfilled-expectation" };
+static bool pre_fails(int k) { return k >= P_FAIL_PLAIN; }
 struct Scenario {
+    std::vector<int> history;                     // PRE kinds, in run order
     std::vector<std::string> scopes;              // "" = global
     std::vector<std::string> ignoreScopes;        // scopes with ignoreOtherCalls ("" means mock().ignoreOtherCalls(), which covers every scope)
     bool strict = false; int mode = M_FIXTURE; bool ignoreBeforeExpectations = false; bool usesT1 = false;
@@ -112,20 +122,19 @@ static const Item* find_item(const std::vector<Item>& v, int kindA, int kindB, c
 }
 static const Item* find_obj(const std::vector<Item>& v) { for (const Item& i : v) if (i.kind == I_OBJ) return &i; return nullptr; }
 
-static std::string item_text(const Item& i) {
+static std::string item_text(const Item& i, bool expSide = false) {
     switch (i.kind) {
     case I_OBJ: return "onObject#" + std::to_string(i.obj);
     case I_IN: return i.name + ":" + VT_NAME[i.type] + "=" + val_text(i.type, i.vi);
-    case I_OUT: return i.name + ":out";
+    case I_OUT: return i.name + ":out" + (expSide ? (i.unmod ? std::string("=unmodified") : "=" + std::to_string(i.olen) + "B") : std::string());
     default: return i.name + ":out<T1>";
     }
 }
-static std::string items_text(const std::vector<Item>& v) { std::string s; for (size_t k = 0; k < v.size(); k++) { if (k) s += ", "; s += item_text(v[k]); } return s; }
+static std::string items_text(const std::vector<Item>& v, bool expSide = false) { std::string s; for (size_t k = 0; k < v.size(); k++) { if (k) s += ", "; s += item_text(v[k], expSide); } return s; }
 static std::string exp_text(const ExpD& e) {
-    std::string s = "#" + std::to_string(e.idx) + " " + e.fq() + "(" + items_text(e.items) + (e.ignoreOther ? (e.items.empty() ? "..." : ", ...") : "") + ")";
+    std::string s = "#" + std::to_string(e.idx) + " " + e.fq() + "(" + items_text(e.items, true) + (e.ignoreOther ? (e.items.empty() ? "..." : ", ...") : "") + ")";
     s += " x" + std::to_string(e.count) + (e.api == A_NOCALL ? " [expectNoCall]" : e.api == A_ONE ? " [expectOneCall]" : " [expectNCalls]");
     s += std::string(" ret:") + RT_NAME[e.retType];
-    if (find_item(e.items, I_OUT, I_OUT, "out")) s += e.unmodOut ? " out:unmodified" : " out:" + std::to_string(e.outLen) + "B";
     return s;
 }
 static std::string call_text(const CallD& c) { return c.fq() + "(" + items_text(c.items) + ") fetch=" + FETCH_NAME[c.fetch]; }
@@ -350,7 +359,7 @@ static Diag decode(const std::string& line) {
 
 // ====================================================================== runner (the real code)
 static const size_t MAXCALLS = 64, OUTBUF = 16;
-struct CallRec { bool started, returned, hasRet, gotDefault, fetched; long long retId; unsigned char buf[OUTBUF + 8]; int typedDst; };
+struct CallRec { bool started, returned, hasRet, gotDefault, fetched; long long retId; unsigned char buf[NSLOT][OUTBUF + 8]; int typedDst[NSLOT]; };
 static CallRec g_rec[MAXCALLS];
 static const Scenario* g_sc;
 static bool g_reachedEnd, g_bodyDone;
@@ -362,8 +371,8 @@ struct RecReporter : public MockFailureReporter {
 };
 static RecReporter* g_rep;
 
-static unsigned char g_outBytes[32][8];
-static int g_outTyped[32];
+static unsigned char g_outBytes[32][NOUT][8];      // unique per (expectation, output parameter slot)
+static int g_outTyped[32][NOUT];
 static char g_retStr[32][8];
 static int g_retObj[32];
 
@@ -416,8 +425,8 @@ static void declare_expectation(const ExpD& e) {
         switch (it.kind) {
         case I_OBJ: ec.onObject(it.obj == 3 ? nullptr : (void*) &pobj[it.obj]); break;          // object #3 is the null object: a specific object like any other
         case I_IN: expect_in(ec, it); break;
-        case I_OUT: if (e.unmodOut) ec.withUnmodifiedOutputParameter(it.name.c_str()); else ec.withOutputParameterReturning(it.name.c_str(), g_outBytes[e.idx], e.outLen); break;
-        default: ec.withOutputParameterOfTypeReturning("T1", it.name.c_str(), &g_outTyped[e.idx]); break;
+        case I_OUT: if (it.unmod) ec.withUnmodifiedOutputParameter(it.name.c_str()); else ec.withOutputParameterReturning(it.name.c_str(), g_outBytes[e.idx][out_slot(it.name)], it.olen); break;
+        default: ec.withOutputParameterOfTypeReturning("T1", it.name.c_str(), &g_outTyped[e.idx][out_slot(it.name)]); break;
         }
     }
     if (e.ignoreOther) ec.ignoreOtherParameters();
@@ -487,8 +496,8 @@ static bool run_call(const CallD& c, CallRec& r) {
         switch (it.kind) {
         case I_OBJ: ac.onObject(it.obj == 3 ? nullptr : (void*) &pobj[it.obj]); break;
         case I_IN: pass_in(ac, it); break;
-        case I_OUT: ac.withOutputParameter(it.name.c_str(), r.buf); break;
-        default: ac.withOutputParameterOfType("T1", it.name.c_str(), &r.typedDst); break;
+        case I_OUT: ac.withOutputParameter(it.name.c_str(), r.buf[out_slot(it.name)]); break;
+        default: ac.withOutputParameterOfType("T1", it.name.c_str(), &r.typedDst[out_slot(it.name)]); break;
         }
         if (rec_failed()) return false;
     }
@@ -531,7 +540,21 @@ static void body() {
     g_bodyDone = true;
 }
 
-struct Observed { size_t failures = 0; std::vector<std::string> firstLines; int failPos = -1; bool atEnd = false; bool fixtureFailuresInRecordMode = false; };
+// an earlier test of the run (see Scenario::history). Without the plugin the test itself asks for the verdict, and the harness clears the mock afterwards
+// (what a teardown does); with MockSupportPlugin both are the plugin's job.
+static int g_preKind;
+static void pre_body() {
+    bool plugin = g_sc->mode == M_PLUGIN;
+    switch (g_preKind) {
+    case P_PASS_MOCK: mock().expectOneCall("pre").withParameter("a", 1); mock().actualCall("pre").withParameter("a", 1); if (!plugin) mock().checkExpectations(); break;
+    case P_FAIL_PLAIN: FAIL("earlier test of the run fails for a reason unrelated to mocks"); break;
+    case P_FAIL_MOCK_CALL: mock().actualCall("pre_unexpected"); break;
+    case P_FAIL_MOCK_END: mock().expectOneCall("pre_never"); if (!plugin) mock().checkExpectations(); break;
+    default: break;
+    }
+}
+
+struct Observed { std::vector<size_t> historyFailures; size_t failures = 0; std::vector<std::string> firstLines; int failPos = -1; bool atEnd = false; bool fixtureFailuresInRecordMode = false; };
 
 static void reset_mock() {
     mock().clear();
@@ -542,7 +565,7 @@ static void reset_mock() {
 static Observed run_real(const Scenario& s) {
     Observed o;
     reset_mock();
-    for (size_t i = 0; i < MAXCALLS; i++) { CallRec& r = g_rec[i]; r.started = r.returned = r.hasRet = r.gotDefault = r.fetched = false; r.retId = -1; memset(r.buf, 0xEE, sizeof r.buf); r.typedDst = -1; }
+    for (size_t i = 0; i < MAXCALLS; i++) { CallRec& r = g_rec[i]; r.started = r.returned = r.hasRet = r.gotDefault = r.fetched = false; r.retId = -1; memset(r.buf, 0xEE, sizeof r.buf); for (int k = 0; k < NSLOT; k++) r.typedDst[k] = -1; }
     g_sc = &s; g_reachedEnd = g_bodyDone = false;
     RecReporter rep; g_rep = s.mode == M_RECORD ? &rep : nullptr;
     std::string text;
@@ -553,10 +576,18 @@ static Observed run_real(const Scenario& s) {
             if (s.usesT1) { plugin.installComparator("T1", g_cmp); plugin.installCopier("T1", g_cop); }
             fx.installPlugin(&plugin);
         }
+        for (int k : s.history) {
+            g_preKind = k;
+            size_t before = fx.getFailureCount();
+            fx.runTestWithMethod(pre_body);
+            o.historyFailures.push_back(fx.getFailureCount() - before);
+            if (s.mode != M_PLUGIN) mock().clear();
+        }
+        size_t failuresBefore = fx.getFailureCount(), textBefore = fx.getOutput().size();
         fx.setTestFunction(body);
         fx.runAllTests();
-        o.failures = fx.getFailureCount();
-        text = fx.getOutput().asCharString();
+        o.failures = fx.getFailureCount() - failuresBefore;
+        text = fx.getOutput().asCharString() + textBefore;
         if (s.mode == M_PLUGIN) fx.getRegistry()->resetPlugins();
     }
     if (s.mode == M_RECORD) {
@@ -583,23 +614,25 @@ static Observed run_real(const Scenario& s) {
 // ====================================================================== comparison
 static std::string traits_of(const Scenario& s, const CallD& c) {
     // input class of the function the call belongs to (for violation keys)
-    bool ign = false, obj = false, out = false, dup = false, overload = false; std::set<std::string> classes; std::set<size_t> arities; size_t n = 0;
+    bool ign = false, obj = false, out = false, dup = false, overload = false; std::set<std::string> classes; std::set<size_t> arities; size_t n = 0, maxOut = 0;
     for (const ExpD& e : s.exps) if (e.fq() == c.fq()) {
         n++; ign |= e.ignoreOther; obj |= find_obj(e.items) != nullptr;
-        for (const Item& i : e.items) if (i.kind == I_OUT || i.kind == I_OUTT) out = true;
+        size_t no = 0; for (const Item& i : e.items) if (i.kind == I_OUT || i.kind == I_OUTT) { out = true; no++; }
+        maxOut = std::max(maxOut, no);
         if (!classes.insert(class_key(e)).second) dup = true;
         size_t a = 0; for (const Item& i : e.items) if (i.kind == I_IN) a++; arities.insert(a);
     }
     overload = arities.size() > 1;
     std::string t;
-    if (dup) t += "dup,"; if (ign) t += "ignoreOtherParameters,"; if (obj) t += "object,"; if (out) t += "output,"; if (overload) t += "overload,";
+    if (dup) t += "dup,"; if (ign) t += "ignoreOtherParameters,"; if (obj) t += "object,"; if (out) t += maxOut >= 2 ? "outputs," : "output,"; if (overload) t += "overload,";
     if (!t.empty()) t.pop_back();
     return t.empty() ? "plain" : t;
 }
 
-static void expected_image(const ExpD& e, unsigned char* img) {
+// what the caller's buffer of one byte output parameter must hold after a call that consumed e (eo: e's declaration of that parameter)
+static void expected_image(const ExpD& e, const Item& eo, unsigned char* img) {
     memset(img, 0xEE, OUTBUF + 8);
-    if (!e.unmodOut) memcpy(img, g_outBytes[e.idx], e.outLen);
+    if (!eo.unmod) memcpy(img, g_outBytes[e.idx][out_slot(eo.name)], eo.olen);
 }
 
 // input class of the deviating call, for violation keys (no values, no call numbers)
@@ -609,7 +642,14 @@ static std::string deviation_class(const Model& m) {
     return "differs-" + kinds_text(m.closest);                                                    // smallest difference to an open expectation
 }
 
-static void judge(vf::Ctx& c, const Scenario& s, const Model& m, const Observed& o) {
+// judge() reports into a buffer: run_scenario decides afterwards whether a violation depends on the earlier tests of the run
+struct Sink {
+    std::vector<std::pair<std::string, std::string>> viol; std::vector<std::pair<std::string, uint64_t>> counts;
+    void violation(const std::string& k, const std::string& d) { viol.emplace_back(k, d); }
+    void count(const std::string& n, uint64_t k = 1) { counts.emplace_back(n, k); }
+};
+
+static void judge(Sink& c, const Scenario& s, const Model& m, const Observed& o) {
     const std::string perm = s.permuted ? "permuted-parameter-order" : "declared-parameter-order";
     if (o.fixtureFailuresInRecordMode) { c.violation("recording-reporter-bypassed", "a failure reached the test result although a recording MockFailureReporter was installed"); return; }
     std::vector<Diag> diags; for (const std::string& l : o.firstLines) diags.push_back(decode(l));
@@ -645,7 +685,7 @@ static void judge(vf::Ctx& c, const Scenario& s, const Model& m, const Observed&
         const std::vector<int>& M = m.match[i];
         std::string tr = traits_of(s, cl);
         bool retObservable = r.fetched && cl.retType != R_NONE;
-        const Item* outItem = nullptr; for (const Item& it : cl.items) if (it.kind == I_OUT || it.kind == I_OUTT) outItem = &it;
+        std::vector<const Item*> outItems; for (const Item& it : cl.items) if (it.kind == I_OUT || it.kind == I_OUTT) outItems.push_back(&it);
         if (r.fetched && cl.retType == R_NONE && r.hasRet) { c.violation("return-value-invented:" + tr, "call " + std::to_string(i) + " " + call_text(cl) + " has a return value although no matching expectation carries one"); return; }
         std::vector<int> cand = M;
         if (retObservable) {
@@ -657,53 +697,86 @@ static void judge(vf::Ctx& c, const Scenario& s, const Model& m, const Observed&
             }
             cand.assign(1, (int) r.retId);
         }
-        if (outItem) {
-            std::vector<int> c2; bool transient = false;
+        if (!outItems.empty()) {
+            // every output parameter of the call must hold the bytes of ONE expectation among the candidates (the consumed one), whatever the order in which
+            // the call passed its output parameters and whatever the other output parameters of that expectation are (unmodified, zero-sized, typed)
+            std::vector<int> c2; bool transient = false; const Item* badItem = nullptr; bool badAfterEmpty = false;
             for (int e : cand) {
                 const ExpD& ex = s.exps[(size_t) e];
-                const Item* eo = find_item(ex.items, I_OUT, I_OUTT, outItem->name);
-                if (!eo) { c2.push_back(e); continue; }      // ignored extra output parameter: nothing stated about its bytes
-                if (outItem->kind == I_OUTT) { if (r.typedDst == g_outTyped[e]) c2.push_back(e); }
-                else {
-                    unsigned char img[OUTBUF + 8]; expected_image(ex, img);
-                    if (memcmp(img, r.buf, sizeof img) == 0) c2.push_back(e);
-                    else if (tr.find("overload") != std::string::npos) {
-                        // an expectation with fewer parameters may match transiently while the call is being built; its bytes are copied first and the consumed
-                        // expectation's bytes over them. The property speaks of the bytes of the consumed expectation only: tolerated and counted, not a violation.
-                        // (several shorter overloads can match in turn, so the leftovers are judged per byte: each byte beyond the consumed expectation's length is
-                        // untouched or is that byte of another expectation of this function.)
-                        bool ok = memcmp(r.buf + OUTBUF, img + OUTBUF, 8) == 0 && (ex.unmodOut || memcmp(r.buf, img, ex.outLen) == 0);
-                        for (size_t q = ex.unmodOut ? 0 : ex.outLen; ok && q < OUTBUF; q++) {
-                            if (r.buf[q] == 0xEE) continue;
-                            bool explained = false;
-                            for (const ExpD& x : s.exps)
-                                if (x.idx != e && x.fq() == ex.fq() && !x.unmodOut && find_item(x.items, I_OUT, I_OUT, outItem->name) && q < x.outLen && g_outBytes[x.idx][q] == r.buf[q]) explained = true;
-                            if (!explained) ok = false;
+                bool all = true, transE = false, emptySeen = false;
+                for (const Item* oi : outItems) {
+                    const Item* eo = find_item(ex.items, I_OUT, I_OUTT, oi->name);
+                    if (!eo) continue;                  // ignored extra output parameter: nothing stated about its bytes
+                    int sl = out_slot(oi->name);
+                    bool ok;
+                    if (oi->kind == I_OUTT) ok = r.typedDst[sl] == g_outTyped[e][sl];
+                    else {
+                        unsigned char img[OUTBUF + 8]; expected_image(ex, *eo, img);
+                        ok = memcmp(img, r.buf[sl], sizeof img) == 0;
+                        if (!ok && tr.find("overload") != std::string::npos) {
+                            // an expectation with fewer parameters may match transiently while the call is being built; its bytes are copied first and the consumed
+                            // expectation's bytes over them. The property speaks of the bytes of the consumed expectation only: tolerated and counted, not a violation.
+                            // (several shorter overloads can match in turn, so the leftovers are judged per byte: each byte beyond the consumed expectation's length is
+                            // untouched or is that byte of another expectation of this function.)
+                            size_t own = eo->unmod ? 0 : eo->olen;
+                            bool ok2 = memcmp(r.buf[sl] + OUTBUF, img + OUTBUF, 8) == 0 && memcmp(r.buf[sl], img, own) == 0;
+                            for (size_t q = own; ok2 && q < OUTBUF; q++) {
+                                if (r.buf[sl][q] == 0xEE) continue;
+                                bool explained = false;
+                                for (const ExpD& x : s.exps) {
+                                    const Item* xo = x.idx != e && x.fq() == ex.fq() ? find_item(x.items, I_OUT, I_OUT, oi->name) : nullptr;
+                                    if (xo && !xo->unmod && q < xo->olen && g_outBytes[x.idx][sl][q] == r.buf[sl][q]) explained = true;
+                                }
+                                if (!explained) ok2 = false;
+                            }
+                            if (ok2) { ok = true; transE = true; }
                         }
-                        if (ok) { c2.push_back(e); transient = true; }
                     }
+                    if (!ok) { all = false; if (!badItem) { badItem = oi; badAfterEmpty = emptySeen; } break; }
+                    if (eo->kind == I_OUT && (eo->unmod || eo->olen == 0)) emptySeen = true;
                 }
+                if (all) { c2.push_back(e); transient |= transE; }
             }
             if (transient && !c2.empty()) c.count("output_leftover_bytes_of_transiently_matched_overload");
             if (c2.empty()) {
-                std::string obs = outItem->kind == I_OUTT ? std::to_string(r.typedDst) : vf::hexbytes(r.buf, OUTBUF + 8);
+                int sl = out_slot(badItem->name);
+                std::string obs = badItem->kind == I_OUTT ? std::to_string(r.typedDst[sl]) : vf::hexbytes(r.buf[sl], OUTBUF + 8);
                 // whose bytes are they?
                 std::string whose = "nobody's";
-                for (const ExpD& ex : s.exps) {
-                    if (outItem->kind == I_OUTT) { if (r.typedDst == g_outTyped[ex.idx]) whose = "expectation #" + std::to_string(ex.idx); }
-                    else { unsigned char img[OUTBUF + 8]; expected_image(ex, img); if (find_item(ex.items, I_OUT, I_OUT, outItem->name) && memcmp(img, r.buf, sizeof img) == 0) whose = "expectation #" + std::to_string(ex.idx); }
+                bool untouched = true; if (badItem->kind == I_OUTT) untouched = r.typedDst[sl] == -1; else for (size_t q = 0; q < OUTBUF + 8; q++) if (r.buf[sl][q] != 0xEE) untouched = false;
+                if (untouched) whose = "never written";
+                else for (const ExpD& ex : s.exps) {
+                    const Item* xo = find_item(ex.items, I_OUT, I_OUTT, badItem->name);
+                    if (!xo || xo->kind != badItem->kind) continue;
+                    if (badItem->kind == I_OUTT) { if (r.typedDst[sl] == g_outTyped[ex.idx][sl]) whose = "expectation #" + std::to_string(ex.idx); }
+                    else { unsigned char img[OUTBUF + 8]; expected_image(ex, *xo, img); if (memcmp(img, r.buf[sl], sizeof img) == 0) whose = "expectation #" + std::to_string(ex.idx); }
                 }
-                c.violation(std::string(retObservable ? "output-bytes-not-from-consumed-expectation:" : "output-bytes-from-non-matching-expectation:") + tr,
-                            "call " + std::to_string(i) + " " + call_text(cl) + " output = " + obs + " (" + whose + "), consumed/matching expectation(s): #" + std::to_string(cand[0]));
+                // input class: where the wronged output parameter stands in the passing order of the call
+                std::string where = outItems.size() < 2 ? "" : badAfterEmpty ? ":passed-after-unmodified-or-zero-sized-output" : badItem == outItems[0] ? ":first-output-of-several" : ":later-output-of-several";
+                c.violation(std::string(retObservable ? "output-bytes-not-from-consumed-expectation:" : "output-bytes-from-non-matching-expectation:") + tr + where,
+                            "call " + std::to_string(i) + " " + call_text(cl) + " output parameter '" + badItem->name + "' = " + obs + " (" + whose + "), consumed/matching expectation(s): " + exp_text(s.exps[(size_t) cand[0]]));
                 return;
             }
             cand = c2;
-            c.count("output_parameters_checked");
+            c.count("output_parameters_checked", outItems.size());
+            if (outItems.size() >= 2) c.count("calls_with_two_or_more_output_parameters_checked");
         }
         int chosen = -1;
         for (int e : cand) if (used[e] < s.exps[(size_t) e].count) { chosen = e; break; }
         if (chosen < 0) { c.violation("expectation-consumed-beyond-its-count:" + tr, "call " + std::to_string(i) + " " + call_text(cl) + " was served by expectation #" + std::to_string(cand[0]) + " more often than its count"); return; }
         used[chosen]++;
+        if (!outItems.empty()) {
+            // evidence: what the consumed expectation declares for the output parameters of this call, in passing order
+            bool emptySeen = false, dataAfterEmpty = false;
+            for (const Item* oi : outItems) {
+                const Item* eo = find_item(s.exps[(size_t) chosen].items, I_OUT, I_OUTT, oi->name);
+                if (!eo) { c.count("output_parameter_ignored_by_consumed_expectation"); continue; }
+                bool empty = eo->kind == I_OUT && (eo->unmod || eo->olen == 0);
+                c.count(eo->kind == I_OUTT ? "output_typed_checked" : eo->unmod ? "output_unmodified_checked" : eo->olen == 0 ? "output_zero_sized_checked" : "output_bytes_checked");
+                if (empty) emptySeen = true; else if (emptySeen) dataAfterEmpty = true;
+            }
+            if (dataAfterEmpty) c.count("calls_with_data_output_passed_after_unmodified_or_zero_sized_output");
+        }
         if (retObservable) c.count("return_values_checked");
         c.count("calls_consumed");
     }
@@ -751,7 +824,8 @@ static void judge(vf::Ctx& c, const Scenario& s, const Model& m, const Observed&
 struct PSig { std::string name; int type; std::vector<int> pool; };
 struct FSig {
     std::string scope, name; std::vector<PSig> in; bool overload = false; bool hasObj = false, objFirst = true; std::vector<int> objPool;
-    int outKind = 0; size_t outPos = 0; bool ignoreOther = false; size_t listed = 0; int retType = R_NONE; int fetch = F_CALL_TYPED;
+    struct OSig { std::string name; int kind; size_t pos; };      // kind 1: byte output parameter, 2: typed (copier); pos: where the mock function body passes it
+    std::vector<OSig> outs; bool ignoreOther = false; size_t listed = 0; int retType = R_NONE; int fetch = F_CALL_TYPED;
 };
 
 static int other_value(vf::Rng& r, int type, int vi) { int n = NV[type]; int v = (int) r.below((uint64_t) n - 1); return v >= vi ? v + 1 : v; }
@@ -770,7 +844,11 @@ static FSig gen_function(vf::Rng& r, const std::string& scope, const std::string
     }
     f.hasObj = r.chance(25); f.objFirst = r.chance(60);
     if (f.hasObj) { int a = (int) r.below(4); f.objPool = { a, (a + 1 + (int) r.below(3)) % 4 }; }
-    if (r.chance(30)) { f.outKind = r.chance(25) ? 2 : 1; f.outPos = r.below(nIn + 1); }
+    if (r.chance(32)) {
+        // 1..3 output parameters; each is passed at its own position among the parameters of the call (so every passing order of outputs and inputs occurs)
+        size_t nOut = r.chance(45) ? 1 : r.chance(60) ? 2 : 3;
+        for (size_t k = 0; k < nOut; k++) f.outs.push_back(FSig::OSig{ OUT_NAME[k], r.chance(25) ? 2 : 1, r.below(nIn + k + 1) });
+    }
     if (nIn >= 1 && r.chance(15)) { f.ignoreOther = true; f.listed = r.below(nIn + 1); }
     else if (nIn >= 2 && r.chance(18)) f.overload = true;
     f.retType = r.chance(20) ? R_NONE : r.range(R_INT, R_N - 1);
@@ -779,7 +857,7 @@ static FSig gen_function(vf::Rng& r, const std::string& scope, const std::string
 }
 
 static ExpD gen_expectation(vf::Rng& r, const FSig& f, int idx) {
-    ExpD e; e.idx = idx; e.scope = f.scope; e.name = f.name; e.ignoreOther = f.ignoreOther; e.retType = f.retType; e.unmodOut = false; e.outLen = 0;
+    ExpD e; e.idx = idx; e.scope = f.scope; e.name = f.name; e.ignoreOther = f.ignoreOther; e.retType = f.retType;
     std::vector<Item> ins;
     for (size_t k = 0; k < f.in.size(); k++) {
         if (f.ignoreOther && k >= f.listed) continue;
@@ -789,12 +867,22 @@ static ExpD gen_expectation(vf::Rng& r, const FSig& f, int idx) {
     if (r.chance(20)) for (size_t k = ins.size(); k > 1; k--) std::swap(ins[k - 1], ins[r.below(k)]);   // declaration order of parameters is free
     if (f.hasObj && f.objFirst) e.items.push_back(Item(I_OBJ, "", 0, 0, f.objPool[r.below(2)]));
     for (const Item& i : ins) e.items.push_back(i);
-    if (f.outKind) { e.items.push_back(Item(f.outKind == 1 ? I_OUT : I_OUTT, "out")); e.outLen = (size_t) r.range(1, 8); e.unmodOut = f.outKind == 1 && r.chance(10); }
+    {
+        // every expectation of the function declares every output parameter: unmodified, zero-sized, or 1..8 bytes / a typed object of its own
+        std::vector<Item> outs;
+        for (const FSig::OSig& o : f.outs) {
+            Item it(o.kind == 1 ? I_OUT : I_OUTT, o.name);
+            if (o.kind == 1) { uint64_t u = r.below(100); if (u < 13) it.unmod = true; else if (u < 22) it.olen = 0; else it.olen = (size_t) r.range(1, 8); }
+            outs.push_back(it);
+        }
+        if (r.chance(30)) for (size_t k = outs.size(); k > 1; k--) std::swap(outs[k - 1], outs[r.below(k)]);    // declaration order of output parameters is free
+        for (const Item& it : outs) e.items.push_back(it);
+    }
     if (f.hasObj && !f.objFirst) e.items.push_back(Item(I_OBJ, "", 0, 0, f.objPool[r.below(2)]));
     static const int CNT[] = { 1, 1, 1, 1, 1, 2, 2, 3, 0, 0 };
     e.count = (unsigned) r.pick(CNT);
     e.api = e.count == 1 && r.chance(70) ? A_ONE : A_N;
-    if (e.count == 0 && f.in.empty() && !f.hasObj && !f.outKind && r.chance(60)) { e.api = A_NOCALL; e.retType = R_NONE; e.ignoreOther = false; }
+    if (e.count == 0 && f.in.empty() && !f.hasObj && f.outs.empty() && r.chance(60)) { e.api = A_NOCALL; e.retType = R_NONE; e.ignoreOther = false; }
     return e;
 }
 
@@ -808,7 +896,7 @@ static CallD call_for(vf::Rng& r, const FSig& f, const ExpD& e) {
         else if (f.ignoreOther) ins.push_back(Item(I_IN, f.in[k].name, f.in[k].type, f.in[k].pool[r.below(f.in[k].pool.size())]));   // ignored extra parameter
     }
     const Item* eo = find_obj(e.items);
-    if (f.outKind) ins.insert(ins.begin() + (long) std::min(f.outPos, ins.size()), Item(f.outKind == 1 ? I_OUT : I_OUTT, "out"));
+    for (const FSig::OSig& o : f.outs) ins.insert(ins.begin() + (long) std::min(o.pos, ins.size()), Item(o.kind == 1 ? I_OUT : I_OUTT, o.name));
     if (eo && f.objFirst) c.items.push_back(*eo);
     for (const Item& i : ins) c.items.push_back(i);
     if (eo && !f.objFirst) c.items.push_back(*eo);
@@ -847,6 +935,7 @@ static void gen_world(vf::Rng& r, Scenario& s, Gen& g, bool allowLazy) {
     }
     s.ignoreBeforeExpectations = r.chance(50);
     s.mode = (int) r.below(M_N);
+    if (r.chance(s.mode == M_PLUGIN ? 45 : 25)) { size_t n = (size_t) r.range(1, 3); for (size_t k = 0; k < n; k++) s.history.push_back((int) r.below(P_N)); }   // the scenario is not the first test of its run
     s.usesT1 = true;
     for (const ExpD& e : s.exps) if (e.retType != R_NONE && e.api != A_NOCALL) { /* all expectations of a function share the return type */ }
 }
@@ -961,8 +1050,9 @@ static std::string describe(const Scenario& s, const Model& m) {
     for (const CallD& c : s.calls) ca.push_back(vf::jstr(call_text(c)));
     for (const std::string& g : s.ignoreScopes) ig.push_back(vf::jstr(g.empty() ? "<all>" : g));
     for (const std::string& g : s.scopes) sc.push_back(vf::jstr(g.empty() ? "<global>" : g));
+    std::vector<std::string> hi; for (int k : s.history) hi.push_back(vf::jstr(PRE_NAME[k]));
     std::string mv = m.undecidable ? "outside-unambiguous-class" : m.devIdx >= 0 ? "first deviation at call " + std::to_string(m.devIdx) + " {" + kinds_text(m.accept) + "}" : m.accept.empty() ? "pass" : "fails at end {" + kinds_text(m.accept) + "}";
-    return vf::J().k("mode", MODE_NAME[s.mode]).k("strict_order", s.strict).raw("scopes", vf::jarr(sc)).raw("ignore_other_calls", vf::jarr(ig)).k("ignore_declared_before_expectations", s.ignoreBeforeExpectations)
+    return vf::J().k("mode", MODE_NAME[s.mode]).raw("earlier_tests_of_the_same_run", vf::jarr(hi)).k("strict_order", s.strict).raw("scopes", vf::jarr(sc)).raw("ignore_other_calls", vf::jarr(ig)).k("ignore_declared_before_expectations", s.ignoreBeforeExpectations)
         .k("injected_deviation", s.deviation).k("permuted_parameter_order", s.permuted).raw("expectations", vf::jarr(ex)).raw("calls", vf::jarr(ca)).k("model_verdict", mv).str();
 }
 
@@ -971,9 +1061,40 @@ static void run_scenario(vf::Ctx& c, const Scenario& s) {
     c.begin([=] { return describe(s, m); });
     if (m.undecidable || s.calls.size() >= MAXCALLS || s.exps.size() > 30) { c.count("skipped_outside_unambiguous_class"); return; }
     Observed o = run_real(s);
-    judge(c, s, m, o);
+    Sink k; judge(k, s, m, o);
+    const char* modeShort = s.mode == M_FIXTURE ? "fixture" : s.mode == M_PLUGIN ? "plugin" : "recording";
+    bool failedBefore = false;
+    for (size_t h = 0; h < s.history.size(); h++) {
+        // the earlier tests are one-line scenarios with an obvious verdict; it must not depend on their own predecessors either
+        size_t want = pre_fails(s.history[h]) ? 1 : 0;
+        if (o.historyFailures[h] != want)
+            c.violation(std::string("earlier-test-of-the-run-verdict-wrong:") + PRE_NAME[s.history[h]] + ":" + modeShort + (failedBefore ? ":after-a-failed-test-of-the-run" : h ? ":after-passing-tests-of-the-run" : ":first-test-of-the-run"),
+                        "test " + std::to_string(h) + " of the run reported " + std::to_string(o.historyFailures[h]) + " failure(s), expected " + std::to_string(want));
+        c.count(std::string("earlier_test_") + PRE_NAME[s.history[h]]);
+        if (pre_fails(s.history[h])) failedBefore = true;
+    }
+    if (!k.viol.empty() && !s.history.empty()) {
+        // history shape of the violation: is the same scenario judged correctly as the first test of a run?
+        Scenario alone = s; alone.history.clear();
+        Observed o2 = run_real(alone);
+        Sink k2; judge(k2, alone, m, o2);
+        for (auto& v : k.viol) {
+            bool also = false; for (auto& w : k2.viol) if (w.first == v.first) also = true;
+            if (!also) { v.first += failedBefore ? ":only-after-a-failed-test-of-the-run" : ":only-after-earlier-tests-of-the-run"; v.second += "  [the same scenario run as the first test of a run is judged correctly]"; }
+        }
+    }
+    for (auto& v : k.viol) c.violation(v.first, v.second);
+    for (auto& n : k.counts) c.count(n.first, n.second);
     // evidence
     c.count("scenarios");
+    if (!s.history.empty()) {
+        bool endVerdict = m.devIdx < 0 && !m.accept.empty();
+        bool lastCallInProgress = m.devIdx >= 0 && (size_t) m.devIdx + 1 == s.calls.size() && s.calls[(size_t) m.devIdx].fetch == F_LAZY;
+        c.count(std::string("scenarios_after_earlier_tests_of_the_run_") + modeShort);
+        if (failedBefore) c.count(std::string("scenarios_after_a_failed_test_of_the_run_") + modeShort);
+        if (failedBefore && (endVerdict || lastCallInProgress)) c.count(std::string("end_of_test_failures_due_after_a_failed_test_of_the_run_") + modeShort);
+        if (failedBefore && m.devIdx < 0 && m.accept.empty()) c.count(std::string("passes_due_after_a_failed_test_of_the_run_") + modeShort);
+    }
     c.count(std::string("mode_") + (s.mode == M_FIXTURE ? "fixture" : s.mode == M_PLUGIN ? "plugin" : "recording"));
     c.count("deviation_" + s.deviation);
     c.count(m.devIdx >= 0 ? "model_call_level_deviation" : m.accept.empty() ? "model_pass" : "model_end_of_test_failure");
@@ -1078,9 +1199,12 @@ int main(int argc, char** argv) {
     for (int i = 0; i < 5; i++) { memcpy(memA[i], V_MEM[i].b, 4); memcpy(memB[i], V_MEM[i].b, 4); }
     for (int i = 0; i < 4; i++) { objA[i] = V_OBJ[i]; objB[i] = V_OBJ[i]; }
     for (int i = 0; i < 32; i++) {
-        g_outBytes[i][0] = (unsigned char) (0xA0 + i);
-        for (int k = 1; k < 8; k++) g_outBytes[i][k] = (unsigned char) (i * 7 + k);
-        g_outTyped[i] = 5000 + i; g_retObj[i] = i;
+        for (int sl = 0; sl < NOUT; sl++) {
+            g_outBytes[i][sl][0] = (unsigned char) (0x20 + 0x40 * sl + i);          // first byte unique per (expectation, slot), never the 0xEE filler
+            for (int k = 1; k < 8; k++) { unsigned char b = (unsigned char) (i * 7 + k + 61 * sl); g_outBytes[i][sl][k] = b == 0xEE ? 0xED : b; }
+            g_outTyped[i][sl] = 5000 + 100 * sl + i;
+        }
+        g_retObj[i] = i;
         snprintf(g_retStr[i], sizeof g_retStr[i], "ret%02d", i);
     }
     std::vector<vf::Section> S = {
